@@ -137,6 +137,9 @@ def compute_features_2d(sigs, fs, f_range, compute_features_kwargs=None, axis=0,
 
         dfs_features = epoch_df(df_flat, len(sig_flat), len(sigs[0]))
 
+        # Validate the progress option, as when axis is 0, and report progress across epochs
+        dfs_features = list(progress_bar(dfs_features, progress, len(dfs_features)))
+
          # Apply different thresholds if specified
         if len(kwargs) > 1:
 
